@@ -37,7 +37,7 @@ def enum_run(ctx, mode, stride, procs, maxnodes=3, maxlen=3, corrupt='none', tag
     fs = min(stride, 3)            # focus shapes (LvsEnum!Focus) are sampled every 3rd instead of every stride-th
 
     def one(j):
-        cfg = os.path.join(tlc.BUILD, 'LvsEnum_%s_%s%s_%d.cfg' % (ctx.prop, mode, tag, j))
+        cfg = K.scratch('LvsEnum_%s_%s%s_%d.cfg' % (ctx.prop, mode, tag, j))
         tlc.write_cfg(cfg, spec=None, init='EInit', next_='ENext', constants={
             'MaxNodes': maxnodes, 'MaxLen': maxlen, 'Corrupt': '"%s"' % corrupt, 'CountSteps': 'FALSE',
             'DevPrebound': 'FALSE', 'Mode': '"%s"' % mode, 'Stride': stride * procs, 'Offset': off0 + j * stride,
@@ -190,15 +190,15 @@ def run(ctx):
 
 def stage_a(ctx, procs):
     mn, ml = ctx.pick((3, 2), (4, 3))
-    cfg = walk_cfg(os.path.join(tlc.BUILD, 'LvsTree_walk_c11_%s.cfg' % ctx.tier), mn, ml,
+    cfg = walk_cfg(K.scratch('LvsTree_walk_c11_%s.cfg' % ctx.tier), mn, ml,
                    invariants=WALK_INVS, properties=['YieldsSoundA'])
     wits = ('W_Backtracked', 'W_PreboundUsed', 'W_DeepYield')
     jobs = [lambda: tlc.run('LvsTree', cfg, coverage=True, workers=ctx.pick(4, 16))]
     for w in wits:
-        wp = walk_cfg(os.path.join(tlc.BUILD, 'LvsTree_walk_c11_%s.cfg' % w), 3, 2, invariants=[w])
+        wp = walk_cfg(K.scratch('LvsTree_walk_c11_%s.cfg' % w), 3, 2, invariants=[w])
         jobs.append(lambda wp=wp: tlc.run('LvsTree', wp, workers=1, heavy=False))
     # the deviation flag is visible: with DevPrebound the machine differs from the documented walk
-    dp = walk_cfg(os.path.join(tlc.BUILD, 'LvsTree_walk_c11_d.cfg'), 3, 2, dev=True, invariants=['WalkEqualsDocumented'])
+    dp = walk_cfg(K.scratch('LvsTree_walk_c11_d.cfg'), 3, 2, dev=True, invariants=['WalkEqualsDocumented'])
     jobs.append(lambda: tlc.run('LvsTree', dp, workers=1, heavy=False))
     # laws of the source reference on the small-schema family
     jobs.append(lambda: enum_run(ctx, 'laws', ctx.pick(79, 7), procs, tag='a'))
